@@ -73,6 +73,10 @@ CLAIMED = {
    text="A harness-side Matter-TLV certificate writer (every field a knob) produces valid chains and chains departing from validity in exactly one of 70 classes (signature bit, issuer/subject name, key ids, fabric/node id, validity edges, CA flag, key usages, path length, critical extension, swapped/repeated certificates, leaf as authority, foreign root, CSR key, existing fabric); the real verifier (verify_chain_start..finalise) and the real AddNOC / UpdateNOC paths of the fail-safe are compared with a reference predicate written from the statement. Held = accept/reject agrees on every chain and no panic.",
    note="Trusted: reference predicate, own certificate writer (TBS obtained from rs-matter's as_asn1), rustcrypto ECDSA. CASE's own validate_certs is driven by C01, not here. Not judged (notes): ICAC/RCAC fabric-id mismatch, node id range, RCAC used as ICAC.",
    tech="runtime monitoring: differential oracle (reference validity predicate) over generated certificate chains with single departures", ref="DESIGN.md §3 C19"),
+ "C15": dict(cat="exploration",
+   text="A passive wire monitor (independent header decoder fed from the network tap, plus session-table snapshots) observes every datagram of two traffic families under 10-50 % loss, duplication and reordering: CASE/PASE handshakes with forced retransmission of each handshake message followed by secured request/response chatter, and the full administrative traffic of the commissioning world (fail-safe, credentials, ACL/label writes, CASE rounds, restarts). Rules: the same (sender, session id, message counter) never carries two different ciphertexts (nonce reuse); a retransmission of an acknowledgement-requesting unsecured message is byte-identical (or differs only by a rebuilt piggy-backed ack, counted); per-session send counters read from snapshots never decrease and local session / exchange ids are unique while live. Floors on secured datagrams, byte-identical retransmissions, forced handshake retransmissions and snapshots.",
+   note="Passive: judges only what these workloads put on the wire. Counter order on the wire is not judged (reordering is the network's right). Group sessions are covered by C12 (durable counter) and C03 (group datagrams), not here. Trusted: tap, independent header decoder, snapshot hook.",
+   tech="runtime monitoring: passive wire-tap monitor (nonce-uniqueness / retransmission-identity) plus session-snapshot monotonicity monitor under lossy schedules", ref="DESIGN.md §3 C15"),
 }
 
 NOT_YET = "check not built yet in this framework (work in progress; planned, see DESIGN.md §3)"
